@@ -492,6 +492,10 @@ def dstepCore (st : DState) (line : String) : DState × Option String :=
       let (c, r) := Dkg.onContribute st.cluster i (callerId st.cluster caller) acct false 1
       ({ st with cluster := c }, some r.toStr)
     | _, _, _ => bad st line
+  | ["peerscfg", eps] =>
+    match (eps.splitOn ",").mapM unhexStr with
+    | some l => (st, some (if Dkg.peersAccepted l then "ok" else "E:refused"))
+    | none => bad st line
   | ["hcontributev", i, asker, acct] =>
     match i.toNat?, asker.toNat?, unhexStr acct with
     | some i, some asker, some acct =>
